@@ -69,11 +69,12 @@ class Obs(BaseComponent):
 
 
 class End:
-    __slots__ = ('sock', 'label', 'number', 'open', 'owner', 'channel', 'R', 'W', 'was_discarded', 'hung_up', 'ever_registered',
+    __slots__ = ('sock', 'h', 'label', 'number', 'open', 'owner', 'channel', 'R', 'W', 'was_discarded', 'hung_up', 'ever_registered',
                  'alt_owner', 'alt_channel', 'chans_used', 'strict')
 
-    def __init__(self, sock, label, owner, channel):
+    def __init__(self, sock, label, owner, channel, intfd=False):
         self.sock = sock
+        self.h = sock.fileno() if intfd else sock      # what the poller is handed: the socket object, or its bare number
         self.label = label
         self.number = sock.fileno()
         self.open = True
@@ -126,8 +127,9 @@ def kernel_state(sock):
 
 
 class Universe:
-    def __init__(self, kind, cls):
+    def __init__(self, kind, cls, intfd=False):
         self.kind = kind
+        self.intfd = intfd
         self.log = []
         self.root = Manager()
         self.poller = cls().register(self.root)
@@ -165,7 +167,7 @@ class Universe:
         pair = []
         for side, s in enumerate((a, b)):
             o = (k + slot + side * (1 + k // 3)) % len(CHANNELS)
-            e = End(s, 's%dg%d%s' % (slot, self.gens[slot], 'ab'[side]), self.sources[o], CHANNELS[o] or '*')
+            e = End(s, 's%dg%d%s' % (slot, self.gens[slot], 'ab'[side]), self.sources[o], CHANNELS[o] or '*', self.intfd)
             pair.append(e)
             self.ends.append(e)
             self.by_id[id(s)] = e
@@ -180,6 +182,8 @@ class Universe:
         """mode 0: discard then close; 1: close without discard; 2: close then discard."""
         if not e.open:
             return
+        if self.intfd:
+            mode = 0        # a bare number cannot be told from its successor: every caller discards before closing
         if mode == 0:
             self.api('discard', e)
         if e.ever_registered:
@@ -215,7 +219,7 @@ class Universe:
                 if e.hung_up:
                     self.flags.add('re-add-after-poller-disconnect')
                 e.note_add('R', ch)
-                p.addReader(src, e.sock)
+                p.addReader(src, e.h)
                 e.R = True
                 e.ever_registered = True
             elif what == 'addW':
@@ -227,14 +231,14 @@ class Universe:
                 if e.hung_up:
                     self.flags.add('re-add-after-poller-disconnect')
                 e.note_add('W', ch)
-                p.addWriter(src, e.sock)
+                p.addWriter(src, e.h)
                 e.W = True
                 e.ever_registered = True
             elif what == 'rmR':
                 if e.R and e.W:
                     self.flags.add('role-removed-other-stays')
                     self.pending.add('role-removed-other-stays')
-                p.removeReader(e.sock)
+                p.removeReader(e.h)
                 e.R = False
                 if e.strict and e.strict[0] == 'R':
                     e.strict = None
@@ -242,14 +246,14 @@ class Universe:
                 if e.R and e.W:
                     self.flags.add('role-removed-other-stays')
                     self.pending.add('role-removed-other-stays')
-                p.removeWriter(e.sock)
+                p.removeWriter(e.h)
                 e.W = False
                 if e.strict and e.strict[0] == 'W':
                     e.strict = None
             elif what == 'discard':
                 if e.registered:
                     e.was_discarded = True
-                p.discard(e.sock)
+                p.discard(e.h)
                 e.R = e.W = False
         except Exception as exc:
             raise Violation('api-raised', '%s(%s) raised %s: %s' % (what, e.label, type(exc).__name__, str(exc)[:120]))
@@ -278,6 +282,8 @@ class Universe:
             return None
         if op == 'discard':
             # the only API call a caller makes with an already closed descriptor (close-then-discard)
+            if self.intfd and not e.open:
+                return None     # the bare number may belong to a successor by now
             self.api('discard', e)
             return None
         if not e.open:
@@ -353,8 +359,13 @@ class Universe:
         for name, fd, chans in log:
             if name == 'exception':
                 raise Violation('poller-exception', 'exception event during the iteration: %s' % (chans[0],))
-            e = self.by_id.get(id(fd)) if isinstance(fd, socket.socket) else None
-            if e is None or e.sock is not fd:
+            if self.intfd:
+                e = next((z for z in self.ends if z.open and z.number == fd), None) if type(fd) is int else None
+                if e is None:
+                    e = next((z for z in reversed(self.ends) if z.number == fd), None) if type(fd) is int else None
+            else:
+                e = self.by_id.get(id(fd)) if isinstance(fd, socket.socket) else None
+            if e is None or e.h != fd or (not self.intfd and e.sock is not fd):
                 raise Violation('event-unknown-fd', '%s(%r) to %r names no descriptor handed to the poller' % (name, fd, chans))
             self.events += 1
             if not e.open:
@@ -418,18 +429,23 @@ class Universe:
         for e in self.ends:
             if not e.open:
                 continue
-            if bool(p.isReading(e.sock)) != e.R or bool(p.isWriting(e.sock)) != e.W:
+            if bool(p.isReading(e.h)) != e.R or bool(p.isWriting(e.h)) != e.W:
                 raise Violation('is-registered', '%s: isReading=%r isWriting=%r, registered R=%d W=%d' % (
-                    e.label, p.isReading(e.sock), p.isWriting(e.sock), e.R, e.W))
+                    e.label, p.isReading(e.h), p.isWriting(e.h), e.R, e.W))
         m = getattr(p, '_map', None)
         if m is None:
             return
         for e in self.ends:
-            if e.open and e.registered and m.get(e.number) is not e.sock:
+            if e.open and e.registered and (m.get(e.number) != e.h or type(m.get(e.number)) is not type(e.h)):
                 raise Violation('map-mirror', '%s registered (R=%d W=%d) but _map[%d] is %r' % (e.label, e.R, e.W, e.number, m.get(e.number)))
         for k, v in list(m.items()):
-            e = self.by_id.get(id(v)) if isinstance(v, socket.socket) else None
-            if e is None or e.sock is not v or not e.open:
+            if self.intfd:
+                e = next((z for z in self.ends if z.open and z.number == v), None) if type(v) is int else None
+            else:
+                e = self.by_id.get(id(v)) if isinstance(v, socket.socket) else None
+                if e is not None and e.sock is not v:
+                    e = None
+            if e is None or not e.open:
                 continue
             if not e.registered:
                 raise Violation('map-mirror', '_map[%d] still holds %s which is not registered%s' % (
@@ -490,7 +506,7 @@ def _readd(i, s, first, again):
 class C10(Prop):
     id = 'C10'
     rule = ('op histories (<=20 segments quick, <=45 thorough; a segment is one op or a 6-12 op macro shape; hypothesis-generated lists of [op, slot, side, k] over a pool of '
-            '<=4 socketpairs, both ends registrable, one owning source per descriptor plus ops addR2/addW2 by a second component, urgent (OOB) bytes as peer traffic) interpreted on three universes '
+            '<=4 socketpairs, both ends registrable, one owning source per descriptor plus ops addR2/addW2 by a second component, urgent (OOB) bytes as peer traffic; in 1 of 4 histories the poller is handed bare descriptor numbers (as io.Notify and io.Serial do) instead of socket objects) interpreted on three universes '
             '(Select, Poll, EPoll) and judged at every zero-time-out iteration against the kernel (select(2)/poll(2) asked '
             'directly); non-trivial = the history removes one role while the other stays, re-adds a descriptor after a '
             'discard, or opens a socket whose fd number belonged to an earlier registered descriptor, AND is polled '
@@ -504,6 +520,7 @@ class C10(Prop):
         'the iteration in which Select meets a closed descriptor may emit fewer events (it drops the descriptor); '
         'the iteration after it must be exact',
         'Linux AF_UNIX socketpair semantics for the kernel oracle',
+        'histories with bare-int descriptors always discard before closing (a number cannot be told from its successor) and never use descriptor 0',
     )
     budget = {'quick': (1200, 4), 'thorough': (20000, 16)}
 
@@ -520,7 +537,8 @@ class C10(Prop):
         readd = st.tuples(end, st.sampled_from(['addR', 'addW']), st.sampled_from(['addR', 'addW'])).map(lambda t: _readd(t[0][0], t[0][1], t[1], t[2]))
         seg = st.one_of([op] * 17 + [reuse, roles, readd])
         hist = st.one_of(st.lists(seg, min_size=1, max_size=10), st.lists(seg, min_size=10, max_size=n))
-        return hist.map(lambda segs: {'ops': [o for sg in segs for o in sg]})
+        return st.tuples(hist, st.sampled_from([False, False, False, True])).map(
+            lambda t: {'ops': [o for sg in t[0] for o in sg], 'intfd': t[1]})
 
     def execute(self, spec):
         ops = _tail(spec['ops'])
@@ -530,7 +548,7 @@ class C10(Prop):
         stats = {}
         with driver.captured_stderr():
             for kind, cls in POLLERS:
-                u = Universe(kind, cls)
+                u = Universe(kind, cls, bool(spec.get('intfd')))
                 try:
                     for step, (op, i, s, k) in enumerate(ops):
                         try:
@@ -554,6 +572,8 @@ class C10(Prop):
                         continue
                     if o[3] != names:
                         return Result(False, 'pollers-disagree', 'poll #%d %s: select %r, %s %r' % (n, label, names, kind, o[3]))
+        if spec.get('intfd'):
+            classes.add('bare-int-descriptors')
         if not any(stats.values()):
             classes.add('no-event-at-all')
         return Result(True, nontrivial=nontrivial, classes=sorted(classes))
